@@ -15,9 +15,16 @@ seeds = st.integers(0, 2 ** 32 - 1)
 
 
 @st.composite
-def structures(draw, max_atoms=300, full_rank_only=False, allow_zero_periodic=True):
+def structures(draw, max_atoms=300, full_rank_only=False, allow_zero_periodic=True, slab_bias=False):
     fam = draw(st.sampled_from(["isolated", "crystal", "crystallite", "grains", "stack", "gas", "molecule", "slab"]))
     d = {"family": fam, "pbc": draw(gc.pbcs)}
+    if slab_bias:
+        # C17 needs many two-dimensional networks: more slabs, mostly periodic in the slab plane
+        if draw(st.integers(0, 2)) == 0:
+            fam = "slab"
+            d["family"] = fam
+        if fam == "slab" and draw(st.integers(0, 3)) != 3:
+            d["pbc"] = [True, True, draw(st.booleans())]
     if fam == "gas":
         d["cell"] = draw(gc.cell_descs(lo=3.0, hi=12.0, kinds=("orth", "tric", "sheared"), allow_lefthanded=True))
         n = draw(st.integers(1, 40))
@@ -29,10 +36,10 @@ def structures(draw, max_atoms=300, full_rank_only=False, allow_zero_periodic=Tr
     else:
         d["proto"] = draw(st.integers(0, len(PROTO) - 1))
         d["cubic"] = draw(st.booleans())
-        d["reps"] = [draw(st.integers(2, 4)) for _ in range(3)]
+        d["reps"] = [draw(st.sampled_from([2, 3, 1, 4])) for _ in range(3)]
         if fam in ("grains", "stack"):
             d["proto2"] = draw(st.integers(0, len(PROTO) - 1))
-            d["reps2"] = [draw(st.integers(2, 3)) for _ in range(3)]
+            d["reps2"] = [draw(st.sampled_from([2, 1, 3])) for _ in range(3)]
             d["gap"] = draw(gc.ffloat(1.5, 3.0))
             d["quat"] = draw(st.lists(gc.ffloat(-1.0, 1.0), min_size=4, max_size=4))
         if fam == "isolated":
